@@ -103,6 +103,26 @@ func CheckC06(run *Run) {
 			reqs = append(reqs, r)
 		}
 	}
+	// URL-bound fields that the body schema REQUIRES (buf.validate required): what the clients put into the body of a
+	// PUT/PATCH/POST with path variables must still satisfy the published requestBody schema
+	{
+		id := "c6reqbody"
+		pkg := id + ".v1"
+		req := &Rules{Required: true}
+		// (only fields that are path-bound in the message's single RPC carry the rule: the harness keeps path-bound values
+		// non-empty, other values are not drawn to satisfy rules)
+		f := &File{Messages: []*Message{
+			M("PutNoteReq", F("note_id", 1, "string", WithRules(req)), F("title", 2, "string"), F("body", 3, "string")),
+			M("PatchRevReq", F("note_id", 1, "string", WithRules(req)), F("rev", 2, "string", WithRules(req)), F("body", 3, "string")),
+			M("NoteResp", F("ok", 1, "bool")),
+		}}
+		f.Services = []*Service{Svc("Notes", "/api",
+			RPC("PutNote", pkg+".PutNoteReq", pkg+".NoteResp", "PUT", "/notes/{note_id}"),
+			RPC("PatchRev", pkg+".PatchRevReq", pkg+".NoteResp", "PATCH", "/notes/{note_id}/rev/{rev}"))}
+		r := OneFile(id, pkg, f)
+		r.Tags = []string{"runtime", "required-url-fields"}
+		reqs = append(reqs, r)
+	}
 	// annotated constructs in every context, and shapes added by later rounds (nullable enum, empty_behavior on Timestamp)
 	for _, r := range CodecCatalogue() {
 		if hasTag(r, "contexts") || r.ID == "cxnullenum" || r.ID == "cxemptyts" {
